@@ -227,9 +227,11 @@ def mlFlush (cfg : Config) (σ : Script) (slice_ : Bytes) (s : ML) (keepgoing : 
     match s.lastMatch with
     | none => (s.core, .ok true)
     | some lastMatch =>
-      match mlSinkContext cfg σ slice_ s.core lastMatch with
-      | (st, .ok true) => mlSinkMatched cfg σ slice_ st lastMatch
-      | (st, r) => (st, r)
+      if lastMatch.e - lastMatch.s == 0 then (s.core, .ok true)
+      else
+        match mlSinkContext cfg σ slice_ s.core lastMatch with
+        | (st, .ok true) => mlSinkMatched cfg σ slice_ st lastMatch
+        | (st, r) => (st, r)
   else (s.core, .ok false)
 
 /-- everything `MultiLine::run` does before `finish` -/
@@ -268,9 +270,11 @@ theorem multiLine_eq (cfg : Config) (m : MatcherI) (σ : Script) (slice_ : Bytes
                 match s2.lastMatch with
                 | none => (s2.core, Res.ok true)
                 | some lastMatch =>
-                  match mlSinkContext cfg σ slice_ s2.core lastMatch with
-                  | (st, Res.ok true) => mlSinkMatched cfg σ slice_ st lastMatch
-                  | (st, r) => (st, r)
+                  if (lastMatch.e - lastMatch.s == 0) = true then (s2.core, Res.ok true)
+                  else
+                    match mlSinkContext cfg σ slice_ s2.core lastMatch with
+                    | (st, Res.ok true) => mlSinkMatched cfg σ slice_ st lastMatch
+                    | (st, r) => (st, r)
               else (s2.core, Res.ok false)) = fl
             rcases fl with ⟨st3, b3 | _⟩
             · cases b3
@@ -313,12 +317,16 @@ theorem mlFlush_wb (cfg : Config) (slice_ : Bytes) (s : ML) (kg : Bool) :
     cases s.lastMatch with
     | none => exact WB.pure_ok _ _ rfl
     | some lastMatch =>
-      sim_bind (mlSinkContext_wb hk cfg slice_ s.core lastMatch), (mlSinkContext cfg σ slice_ s.core lastMatch),
-        (mlSinkContext cfg allCont slice_ s.core lastMatch)
-      intro st1 a
-      cases a
-      · exact WB.pure_ok _ _ rfl
-      · exact mlSinkMatched_wb hk cfg slice_ st1 lastMatch
+      dsimp only
+      by_cases he : (lastMatch.e - lastMatch.s == 0) = true
+      · simp only [if_pos he]; exact WB.pure_ok _ _ rfl
+      · simp only [if_neg he]
+        sim_bind (mlSinkContext_wb hk cfg slice_ s.core lastMatch), (mlSinkContext cfg σ slice_ s.core lastMatch),
+          (mlSinkContext cfg allCont slice_ s.core lastMatch)
+        intro st1 a
+        cases a
+        · exact WB.pure_ok _ _ rfl
+        · exact mlSinkMatched_wb hk cfg slice_ st1 lastMatch
 
 theorem mlPre_wb (cfg : Config) (m : MatcherI) (slice_ : Bytes) :
     WB σ k () (Core.new cfg true) (mlPre cfg m σ slice_) (mlPre cfg m allCont slice_) := by
